@@ -21,7 +21,7 @@ from mc.spaces import split_list
 ID = "C01"
 MANIFEST = {"engine": "E1+E2"}
 CONFIGS = (("generic", "float"), ("cancel", "floatzero"), ("int", "int"), ("neg", "intW"))
-STYLES = ("tuple", "float", "int", "inttuple")
+STYLES = ("tuple", "float", "int", "inttuple", "tuple-rev")
 
 
 def units(tier, seed):
@@ -42,6 +42,8 @@ def units(tier, seed):
         for part in split_list(dags, 181):
             out.append({"stage": "law", "p": 4, "codes": [c for c, _ in part],
                         "configs": [("generic", "float"), ("int", "int")], "styles": ["tuple"]})
+        for part in split_list(dags[::5], 32):
+            out.append({"stage": "law", "p": 4, "codes": [c for c, _ in part], "configs": [("generic", "float")], "styles": ["tuple-rev"]})
         for part in split_list(dags[::7], 16):
             out.append({"stage": "law", "p": 4, "codes": [c for c, _ in part],
                         "configs": [("cancel", "floatzero"), ("neg", "intW")], "styles": ["float", "int", "inttuple"]})
@@ -49,7 +51,7 @@ def units(tier, seed):
         dags = SP.dag_list(4)[::40]
         for part in split_list(dags, 14):
             out.append({"stage": "law", "p": 4, "codes": [c for c, _ in part],
-                        "configs": [("generic", "float"), ("int", "int")], "styles": ["tuple"]})
+                        "configs": [("generic", "float"), ("int", "int")], "styles": ["tuple", "tuple-rev"]})
     return out
 
 
@@ -194,6 +196,8 @@ def run_unit(unit):
             for style in unit["styles"]:
                 if style == "inttuple" and cfg not in ("int", "intW"):
                     continue
+                if style == "tuple-rev" and cfg not in ("float", "int"):
+                    continue
                 for assign in itertools.product(range(8), repeat=p):
                     f = check_law(p, code, lab, cfg, assign, style)
                     acc.states += 1
@@ -226,7 +230,7 @@ def describe(tier, seed):
                      "intervened structural equations; (low, high) parameter ranges by exhaustive enumeration of harness-owned RNG answers",
         "rule": "every labelled DAG p<=3 (25 at p=3) x {generic float, cancelling weights with a zero variance, int64 W/means/variances, int W only} x "
                 "all 8^p assignments of a subset of {do, noise, shift} per variable x parameter styles {(mean,var) tuple with fractional values, "
-                "float scalar, int scalar, integer tuple}; quick adds every 40th 4-node DAG, thorough all 543 4-node DAGs x 4096 assignments for a "
+                "float scalar, int scalar, integer tuple, tuple with the dict keys inserted in descending order}; quick adds every 40th 4-node DAG, thorough all 543 4-node DAGs x 4096 assignments for a "
                 "float and an int64 model; None / {} for every keyword combination; LGANM(W,(lo,hi),(lo,hi)) for 5 mean ranges x 3 variance "
                 "ranges with all 3^(2p) answers of the uniform cells, p<=3. non-trivial: some variable carries overlapping interventions",
         "exhaustive": True,
